@@ -3,7 +3,7 @@
    leader of view 1 and are lost); they sit in view 1, unprepared, and the leader of view 2 - member 2 - holds no vote.
    The theorem yields a continuation (their timeouts of view 1, their votes to member 2, its NEW_VIEW, the PREPAREs, the
    COMMITs) at whose end all three have committed. *)
-From LH Require Import Prims Quorum QuorumFacts Contexts Msg Term TermFacts AbsSafety Own World WorldKF1 Live LiveWorld LiveWorldEx Elect LiveElect.
+From LH Require Import Prims Quorum QuorumFacts Contexts Msg Term TermFacts AbsSafety Own World WorldKF1 Live LiveWorld LiveWorldEx Elect LiveElect LiveRound.
 Open Scope N_scope.
 
 Definition stuck_run : list (N * tev) := timeouts 1 0 Q3.
@@ -32,4 +32,24 @@ Proof.
   - vm_compute. reflexivity.
   - exists ext. split; [exact A|]. intros i Hi. split; [|apply (C0 i Hi)].
     destruct Hi as [<-|[<-|[<-|[]]]]; vm_compute; reflexivity.
+Qed.
+
+(* from the very start of height 1 in the four-member world (member 1 Byzantine): the three correct members are idle in
+   view 0; the leader of view 1 is the Byzantine member, the leader of view 2 is member 2: the theorem's continuation -
+   two rounds of timeouts, the votes, the NEW_VIEW, PREPAREs, COMMITs - ends with all three committed *)
+Example lockstep_example :
+  exists ext, wrun 1 cm4 honest4 cfg4 nowm noshut fresh0 lead1 ([] ++ ext) /\
+    forall i, In i Q3 -> t_committed (tc_t (nstate 1 cm4 cfg4 nowm noshut fresh0 lead1 i ([] ++ ext))) = true.
+Proof.
+  assert (Qnd : NoDup Q3) by (repeat constructor; cbn; intuition discriminate).
+  assert (Qgood : forall i, In i Q3 -> good cm4 honest4 i) by (intros i [<-|[<-|[<-|[]]]]; split; reflexivity).
+  assert (Qq : isQ_ids cm4 Q3 = true) by (vm_compute; reflexivity).
+  assert (Qthree : forall i l, In i Q3 -> exists j, In j Q3 /\ j <> i /\ j <> l).
+  { intros i l Hi. destruct (N.eq_dec l 0) as [->|L0]; [destruct (N.eq_dec i 2) as [->|I2]; [exists 3|exists 2]|destruct (N.eq_dec i 0) as [->|I0]; [destruct (N.eq_dec l 2) as [->|L2]; [exists 3|exists 2]|exists 0]];
+    cbn [Q3 In]; repeat split; auto; try discriminate; try congruence.
+    all: destruct Hi as [<-|[<-|[<-|[]]]]; congruence. }
+  destruct (lockstep_timeouts_commit_within_n_views 1 cm4 total4 honest4 cfg4 (fun _ => eq_refl) nowm noshut fresh0 lead1 Q3 Qnd Qgood Qq
+              ltac:(intros; reflexivity) Qthree 0 [] (wrun_nil _ _ _ _ _ _ _ _) ltac:(discriminate) ltac:(vm_compute; reflexivity)) as (ext & A & _ & C0).
+  - intros i [<-|[<-|[<-|[]]]]; (split; [vm_compute; reflexivity|split; [vm_compute; reflexivity|intros w Hw; vm_compute; reflexivity]]).
+  - exists ext. split; [exact A|exact C0].
 Qed.
